@@ -418,6 +418,19 @@ nfa, with no epsilon transition
 
         """
         from pyformlang.regular_expression import Regex
+        if len(self._start_state) > 1:
+            # The elimination below needs a single start state
+            enfa = self.copy()
+            idx = 0
+            new_start = State("Start")
+            while new_start in enfa.states:
+                new_start = State("Start" + str(idx))
+                idx += 1
+            for start in self._start_state:
+                enfa.remove_start_state(start)
+                enfa.add_transition(new_start, Epsilon(), start)
+            enfa.add_start_state(new_start)
+            return enfa.to_regex()
         enfas = [self.copy() for _ in self._final_states]
         final_states = list(self._final_states)
         for i in range(len(self._final_states)):
